@@ -1186,7 +1186,7 @@ def _read_meta(ctx: ReaderContext) -> IMeta:
     input stream."""
     start = ctx.reader.advance()
     assert start == "^"
-    meta = _read_next_consuming_comment(ctx)
+    meta = _read_next_form_or_eof(ctx, "'^'")
 
     meta_map: lmap.PersistentMap[LispForm, LispForm] | None
     if isinstance(meta, sym.Symbol):
@@ -1202,7 +1202,7 @@ def _read_meta(ctx: ReaderContext) -> IMeta:
             f"Expected symbol, keyword, or map for metadata, not {type(meta)}"
         )
 
-    obj_with_meta = _read_next_consuming_comment(ctx)
+    obj_with_meta = _read_next_form_or_eof(ctx, "metadata")
     if isinstance(obj_with_meta, IWithMeta):
         new_meta = (
             obj_with_meta.meta.cons(meta_map)
@@ -1323,7 +1323,7 @@ def _read_quoted(ctx: ReaderContext) -> llist.PersistentList:
     """Read a quoted form from the input stream."""
     start = ctx.reader.advance()
     assert start == "'"
-    next_form = _read_next_consuming_comment(ctx)
+    next_form = _read_next_form_or_eof(ctx, "quote")
     return llist.l(_QUOTE, next_form)
 
 
@@ -1433,7 +1433,9 @@ def _read_syntax_quoted(ctx: ReaderContext) -> RawReaderForm:
     assert start == "`"
 
     with ctx.syntax_quoted():
-        return _process_syntax_quoted_form(ctx, _read_next_consuming_comment(ctx))
+        return _process_syntax_quoted_form(
+            ctx, _read_next_form_or_eof(ctx, "syntax quote")
+        )
 
 
 def _read_unquote(ctx: ReaderContext) -> LispForm:
@@ -1456,10 +1458,10 @@ def _read_unquote(ctx: ReaderContext) -> LispForm:
         next_char = ctx.reader.peek()
         if next_char == "@":
             ctx.reader.advance()
-            next_form = _read_next_consuming_comment(ctx)
+            next_form = _read_next_form_or_eof(ctx, "unquote-splicing")
             return llist.l(_UNQUOTE_SPLICING, next_form)
         else:
-            next_form = _read_next_consuming_comment(ctx)
+            next_form = _read_next_form_or_eof(ctx, "unquote")
             return llist.l(_UNQUOTE, next_form)
 
 
@@ -1468,7 +1470,7 @@ def _read_deref(ctx: ReaderContext) -> LispForm:
     """Read a derefed form from the input stream."""
     start = ctx.reader.advance()
     assert start == "@"
-    next_form = _read_next_consuming_comment(ctx)
+    next_form = _read_next_form_or_eof(ctx, "deref")
     return llist.l(_DEREF, next_form)
 
 
@@ -1759,7 +1761,7 @@ def _read_comment_macro(ctx: ReaderContext) -> Comment:
     a comment."""
     assert ctx.reader.peek() == "_"
     ctx.reader.advance()
-    _read_next_consuming_comment(ctx)  # Ignore the entire next form
+    _read_next_form_or_eof(ctx, "'#_'")  # Ignore the entire next form
     return COMMENT
 
 
@@ -1791,6 +1793,9 @@ def _read_reader_macro(ctx: ReaderContext) -> LispReaderForm:
     assert start == "#"
     char = ctx.reader.peek()
 
+    if char == "":
+        raise ctx.eof_error("Unexpected EOF in reader macro")
+
     if (read_macro := _read_macro_dispatch.get(char)) is not None:
         return read_macro(ctx)
     elif begin_ns_name_chars.match(char):
@@ -1802,7 +1807,7 @@ def _read_reader_macro(ctx: ReaderContext) -> LispReaderForm:
             elif s.name == "f":
                 return _read_fstr(ctx)
 
-        v = _read_next_consuming_comment(ctx)
+        v = _read_next_form_or_eof(ctx, f"tag '#{s}'")
 
         if not ctx.should_process_tagged_literals:
             return tagged_literal(s, v)
@@ -1822,6 +1827,16 @@ def _read_next_consuming_comment(ctx: ReaderContext) -> RawReaderForm:
         if v is COMMENT or isinstance(v, Comment):
             continue
         return v
+
+
+def _read_next_form_or_eof(ctx: ReaderContext, what: str) -> RawReaderForm:
+    """Read the next full form from the input stream (consuming reader comments) for
+    a reader prefix which requires one, raising an `UnexpectedEOFError` if the input
+    ends before the form."""
+    v = _read_next_consuming_comment(ctx)
+    if v is ctx.eof:
+        raise ctx.eof_error(f"Unexpected EOF; expected a form after {what}")
+    return v
 
 
 def _read_next_consuming_whitespace(ctx: ReaderContext) -> LispReaderForm:
